@@ -154,17 +154,17 @@ class Stack(ArrayExpr):
         ``stack([x[idx], y[idx]])`` -- can drift them apart and make the layer
         emit source keys no task produces. Pin each input's non-empty axes back
         to the first input's layout; ``ChunksFreeze`` bridges with a rechunk
-        only where a layout actually moved. (Empty axes are left alone -- a
-        rechunk cannot re-block a zero-length axis -- but ``stack`` requires all
-        inputs to share one shape and layout, so they already agree there; only
-        the non-empty axes ever drift.)
+        only where a layout actually moved. An empty axis can drift too (a
+        slice that vanished over ``(0, 0)`` blocks), and zero-width blocks can
+        only be merged, never split: pin those axes to one empty block.
         """
         from dask_array._expr import ChunksFreeze
 
         ref = self.array.chunks
 
         def pin(a):
-            return tuple(a.chunks[n] if sum(ref[n]) == 0 else ref[n] for n in range(len(ref)))
+            # an empty axis can only be merged into one (empty) block, never split
+            return tuple((0,) if sum(ref[n]) == 0 else ref[n] for n in range(len(ref)))
 
         if all(a.chunks == pin(a) for a in self.args):
             return None
